@@ -2146,3 +2146,205 @@ def k_resolve_selection_sets(R, S=2):
                             failing_rule=failing))
     R.sample(dict(kernel='resolve_selection_sets', selections=S, paths=len(outs)))
     return out
+
+
+# ---------------------------------------------------------------- C15: Display of graphql_client::Error (format machinery modelled)
+
+def fmt_overrides(R):
+    """precise model of `write!` for this kernel: the compiled format template is decoded, Display of strings / i32 is
+    rendered with z3 string terms, Display of crate types is executed from their own MIR"""
+    import re as _re
+    import summaries as Sm
+    from vm import NativeFrame
+
+    def decode(template):
+        pieces, i = [], 0
+        while i < len(template):
+            b = template[i]
+            if b == 0:
+                break
+            if b == 0xC0:
+                pieces.append(('arg',))
+                i += 1
+            elif b < 0x80:
+                pieces.append(('lit', template[i + 1:i + 1 + b].decode()))
+                i += 1 + b
+            else:
+                raise V.Unsupported(f'format template byte {b:#x} (explicit argument position / flags)')
+        return pieces
+
+    def o_argument(vm, st, callee, args, dest, ret_bb, m):
+        return vm.ret(st, dest, ret_bb, Opaque('fmtarg', (args[0], m.group(1))))
+
+    def o_arguments(vm, st, callee, args, dest, ret_bb, m):
+        t = args[0]
+        t = vm.load(st, t) if isinstance(t, Ptr) else t
+        arr = Sm.slice_items(vm, st, args[1]) if len(args) > 1 else []
+        return vm.ret(st, dest, ret_bb, Opaque('fmtargs', (decode(t.data), tuple(vm.load(st, a) for a in arr))))
+
+    def int_to_str(x):
+        # the decimal rendering of integers is std's, not under test: one free string per distinct integer term
+        memo = R.vm.__dict__.setdefault('dec_memo', {})
+        key = z3.simplify(x).sexpr()
+        if key not in memo:
+            memo[key] = z3.String(f'decimal({key[:24]})#{len(memo)}')
+        return memo[key]
+
+    def append(vm, st, buf_ptr, piece):
+        cur = vm.load(st, buf_ptr)
+        cs = cur if isinstance(cur, StrV) else cur.fields[0]
+        if isinstance(cs.s, str) and isinstance(piece, str):
+            new = StrV(cs.s + piece)
+        else:
+            pz = z3.StringVal(piece) if isinstance(piece, str) else piece
+            new = StrV(pz) if (isinstance(cs.s, str) and cs.s == '') else StrV(z3.Concat(cs.z(), pz))
+        vm.store(st, buf_ptr, new if isinstance(cur, StrV) else Agg(None, [new], 'Formatter'))
+
+    def render(vm, st, buf_ptr, pieces, argv, pi, ai, dest, ret_bb):
+        while pi < len(pieces):
+            p = pieces[pi]
+            pi += 1
+            if p[0] == 'lit':
+                append(vm, st, buf_ptr, p[1])
+                continue
+            a = argv[ai]
+            ai += 1
+            val = Sm.deref(vm, st, a.data[0])
+            if isinstance(val, Agg) and val.tag == 'Cow':
+                val = Sm.deref(vm, st, val.fields[0])
+            if isinstance(val, StrV):
+                append(vm, st, buf_ptr, val.s)
+            elif z3.is_bv(val):
+                append(vm, st, buf_ptr, int_to_str(val))
+            else:
+                # a crate type: run its Display::fmt on a scratch formatter, then continue
+                tname = a.data[1].lstrip('&')
+                fn = vm.resolve_local(f'<{tname} as Display>::fmt', [None, None]) or vm.resolve_local(f'<{tname} as std::fmt::Display>::fmt', [None, None])
+                if fn is None:
+                    raise V.Unsupported(f'Display of {tname}')
+                tmp = Ptr(st.alloc(Agg(None, [StrV('')], 'Formatter')), ())
+                vptr = a.data[0]
+                while isinstance(vptr, Ptr) and isinstance(vm.load(st, vptr), Ptr):
+                    vptr = vm.load(st, vptr)
+
+                def cont(vm_, st_, nf, value, pi=pi, ai=ai, tmp=tmp):
+                    st_.frames.pop()
+                    append(vm_, st_, buf_ptr, vm_.load(st_, tmp).fields[0].s)
+                    return render(vm_, st_, buf_ptr, pieces, argv, pi, ai, dest, ret_bb)
+                st.frames.append(NativeFrame('then', cont, None, None))
+                vm.push_call(st, fn, [vptr, tmp], None, None)
+                return None
+        return vm.ret(st, dest, ret_bb, Agg(0, [V.UNIT], 'Result'))
+
+    def o_write_fmt(vm, st, callee, args, dest, ret_bb, m):
+        fa = args[1]
+        return render(vm, st, args[0], fa.data[0], fa.data[1], 0, 0, dest, ret_bb)
+
+    def o_trim_end(vm, st, callee, args, dest, ret_bb, m):
+        s_ = Sm.as_str(vm, st, args[0])
+        ch = chr(z3.simplify(args[1]).as_long())
+        if isinstance(s_.s, str):
+            return vm.ret(st, dest, ret_bb, StrV(s_.s.rstrip(ch)))
+        decs = set(v_.sexpr() for v_ in vm.__dict__.get('dec_memo', {}).values())
+
+        def parts_of(e):
+            if z3.is_app(e) and e.decl().kind() == z3.Z3_OP_SEQ_CONCAT:
+                out_ = []
+                for a_ in e.children():
+                    out_ += parts_of(a_)
+                return out_
+            return [e]
+
+        def trim(parts):
+            """the string made of `parts` with trailing `ch` removed, as a z3 term (structural: literals and decimal
+            renderings are handled exactly, a free string gets a fresh 'kept' prefix)"""
+            if not parts:
+                return z3.StringVal('')
+            last, prefix = parts[-1], parts[:-1]
+            if z3.is_string_value(last):
+                t_ = last.as_string().rstrip(ch)
+                if t_ == '':
+                    return trim(prefix)
+                return z3.Concat(*(prefix + [z3.StringVal(t_)])) if prefix else z3.StringVal(t_)
+            if last.sexpr() in decs:
+                return z3.Concat(*parts) if len(parts) > 1 else last      # never empty, never ends in '/'
+            r, t = z3.FreshConst(z3.StringSort(), 'trim_kept'), z3.FreshConst(z3.StringSort(), 'trim_cut')
+            st.pc += [last == z3.Concat(r, t), z3.InRe(t, z3.Star(z3.Re(ch))), z3.Not(z3.SuffixOf(z3.StringVal(ch), r))]
+            kept = z3.Concat(*(prefix + [r])) if prefix else r
+            return z3.If(z3.Length(r) == 0, trim(prefix), kept)
+        return vm.ret(st, dest, ret_bb, StrV(z3.simplify(trim(parts_of(s_.z())))))
+
+    def o_string_new(vm, st, callee, args, dest, ret_bb, m):
+        return vm.ret(st, dest, ret_bb, StrV(''))
+    return [(_re.compile(r"^core::fmt::rt::Argument::<'_>::new_display::<(.*)>$"), o_argument),
+            (_re.compile(r"^Arguments::<'_>::new::<"), o_arguments),
+            (_re.compile(r'(Formatter::<.*>|as (std::fmt::)?Write>)::write_fmt$'), o_write_fmt),
+            (_re.compile(r'^core::str::<impl str>::trim_end_matches::<char>$'), o_trim_end),
+            (_re.compile(r'^std::string::String::new$'), o_string_new)]
+
+
+def k_error_display(R, maxpath):
+    """<graphql_client::Error as Display>::fmt: output == join("/", path) or "<query>", then ":line:column: message" """
+    cands_fn = [fn for n, fn in R.L.funcs.items() if n.endswith('::fmt') and fn.params and fn.params[0][1].replace(' ', '') == '&Error']
+    disp = [fn for fn in cands_fn if R.vm.impl_trait(fn) == 'Display']
+    if len(disp) != 1:
+        raise V.Unsupported(f'Display for Error not found ({[x.name for x in cands_fn]})')
+    f = disp[0]
+    R.vm.overrides = fmt_overrides(R)
+    out = []
+    pf = R.L.enums['PathFragment']
+    for n in range(0, maxpath + 1):
+        has_path = z3.BitVec(f'ed_hp{n}', 8)
+        kinds = [z3.BitVec(f'ed_k{n}_{i}', 8) for i in range(n)]
+        keys = [z3.String(f'ed_key{n}_{i}') for i in range(n)]
+        idxs = [z3.BitVec(f'ed_idx{n}_{i}', 32) for i in range(n)]
+        msg = z3.String(f'ed_msg{n}')
+        has_loc = z3.BitVec(f'ed_hl{n}', 8)
+        line, col = z3.BitVec(f'ed_line{n}', 32), z3.BitVec(f'ed_col{n}', 32)
+        holder = {}
+
+        def setup(st, B):
+            st.pc += [z3.ULT(has_path, 2), z3.ULT(has_loc, 2)] + [z3.ULT(k_, 2) for k_ in kinds]
+            frags = [SymEnum(kinds[i], {pf.index('Key'): (StrV(keys[i]),), pf.index('Index'): (idxs[i],)}) for i in range(n)]
+            loc = B.struct('Location', line=line, column=col)
+            err = B.struct('Error', message=StrV(msg), locations=SymEnum(has_loc, {0: (), 1: (VecV([loc]),)}), path=SymEnum(has_path, {0: (), 1: (VecV(frags),)}), extensions=none())
+            fm = B.cell(Agg(None, [StrV('')], 'Formatter'))
+            holder['fm'] = fm
+            R.vm.push_call(st, f, [B.cell(err), fm], None, None)
+        outs, _ = R.explore(f'<Error as Display>::fmt (path length {n})', setup)
+        def i2s(x):
+            memo = R.vm.__dict__.setdefault('dec_memo', {})
+            key = z3.simplify(x).sexpr()
+            if key not in memo:
+                memo[key] = z3.String(f'decimal({key[:24]})#{len(memo)}')
+            return memo[key]
+        seg = [z3.If(kinds[i] == pf.index('Key'), keys[i], i2s(idxs[i])) for i in range(n)]
+        joined = z3.StringVal('')
+        for i, s_ in enumerate(seg):
+            joined = s_ if i == 0 else z3.Concat(joined, z3.StringVal('/'), s_)
+        path_str = z3.If(has_path == 1, joined, z3.StringVal('<query>'))
+        l_, c_ = z3.If(has_loc == 1, i2s(line), i2s(bv(0, 32))), z3.If(has_loc == 1, i2s(col), i2s(bv(0, 32)))
+        want = z3.Concat(path_str, z3.StringVal(':'), l_, z3.StringVal(':'), c_, z3.StringVal(': '), msg)
+        for o in outs:
+            if o.kind != 'return':
+                m = R.prove('error_display', o, z3.BoolVal(False), 'Display is total')
+                if m is not None:
+                    out.append(dict(kernel='error_display', prop='C15', what=f'Display is not total: {o.kind} {o.msg}'))
+                continue
+            got = R.vm.load(o.state, holder['fm']).fields[0].z()
+            # all the kernel needs to know about decimal renderings: they are not empty and do not end in '/'
+            dec_ok = []
+            for v_ in R.vm.__dict__.get('dec_memo', {}).values():
+                dec_ok += [z3.Length(v_) > 0, z3.Not(z3.SuffixOf(z3.StringVal('/'), v_))]
+            m = R.prove('error_display', o, z3.Implies(z3.And(*dec_ok) if dec_ok else z3.BoolVal(True), got == want), f'path length {n}')
+            if m is not None:
+                ev = lambda x: m.eval(x, model_completion=True)
+                path = None
+                if ev(has_path).as_long() == 1:
+                    path = [ev(keys[i]).as_string() if ev(kinds[i]).as_long() == pf.index('Key') else ev(idxs[i]).as_signed_long() for i in range(n)]
+                out.append(dict(kernel='error_display', prop='C15', what='Display output differs from `path:line:column: message`', path=path, message=ev(msg).as_string(),
+                                location=[ev(line).as_signed_long(), ev(col).as_signed_long()] if ev(has_loc).as_long() == 1 else None,
+                                got=ev(got).as_string(), want=ev(want).as_string()))
+        R.sample(dict(kernel='error_display', path_length=n, paths=len(outs)))
+    R.vm.overrides = []
+    return out
